@@ -579,6 +579,11 @@ def m_item_load(it, st, args, info):
     t = ('sload', ns, None, 'load', nsv(st, ns), info['targs'])
     eff(st, ('read', ns, None, 'load', t, info['site']))
     return t
+def m_item_may_load(it, st, args, info):
+    ns = map_ns(it, st, args[0])
+    t = ('sload', ns, None, 'may_load', nsv(st, ns), info['targs'])
+    eff(st, ('read', ns, None, 'may_load', t, info['site']))
+    return t
 def do_save(it, st, ns, key, val, site):
     n = bump(st, ns)
     r = ('sres', 'save', ns, key, n)
@@ -770,6 +775,7 @@ EXACT = {
     'core::bool::<impl bool>::then': m_bool_then,
     'std::result::Result::<T, E>::err': m_result_err,
     'std::option::Option::<T>::as_ref': m_as_ref, 'std::option::Option::<T>::as_mut': m_as_ref,
+    'std::option::Option::<T>::as_deref': m_as_ref, 'std::option::Option::<T>::as_deref_mut': m_as_ref,      # Vec -> slice / String -> str derefs are transparent
     'std::option::Option::<&T>::cloned': m_as_ref, 'std::option::Option::<&T>::copied': m_as_ref,
     'std::result::Result::<T, E>::as_ref': m_as_ref,
     'std::option::Option::<T>::unwrap': mk_unwrap('Some', 'None'),
@@ -818,6 +824,7 @@ EXACT = {
     'cw_storage_plus::Map::<\'a, K, T>::is_empty': m_map_is_empty,
     'cw_storage_plus::Map::<\'a, K, T>::range': m_map_range,
     'cw_storage_plus::Item::<\'a, T>::load': m_item_load,
+    'cw_storage_plus::Item::<\'a, T>::may_load': m_item_may_load,
     'cw_storage_plus::Item::<\'a, T>::save': m_item_save,
     'cosmwasm_std::Response::<T>::new': m_resp_new,
     'cosmwasm_std::Response::<T>::add_message': m_add_message,
